@@ -136,6 +136,127 @@ def divmod_law(base, a, b):
     return None
 
 
+M61 = 2**61 - 1
+FAMILIES = [[1, 1 + M61, 1 + 2 * M61], [-1, -2], [2**53, 2**53 + 1], [10**20, 10**20 + 1], [0, M61], [7, 7 + M61, 7 - M61],
+            [2**64, 2**64 + M61], [5, 5]]
+
+
+def exact_of(op, a, b):
+    if op == "div":
+        return a // b
+    if op == "mod":
+        return a % b
+    return EXACT[op](a, b)
+
+
+def nested_expr(rng, depth):
+    """literal-only expression tree with its exact value: ('lit', v) | (op, l, r)"""
+    if depth == 0 or rng.random() < 0.3:
+        return ("lit", R.big_int(rng) % (2**90) * rng.choice([1, -1]))
+    return (rng.choice(["add", "sub", "mul"]), nested_expr(rng, depth - 1), nested_expr(rng, depth - 1))
+
+
+def eval_exact(e):
+    return e[1] if e[0] == "lit" else EXACT[e[0]](eval_exact(e[1]), eval_exact(e[2]))
+
+
+def program_level(rng, n_programs):
+    """Folded literals inside compiled programs: every literal-only sub-expression, combined with a non-literal
+    operand so that it reaches the MIR, must resolve — through its LiteralReference and the MIR's literal table — to
+    exactly the exact value and the literal type; the operation with the non-literal operand must not be folded.
+    Each program holds several folded literals at once, including families of values that collide under
+    Python's hash(), under float conversion, or differ only in type."""
+    from nada_dsl import Party, Input, Output, Integer, UnsignedInteger, Boolean, SecretInteger, SecretUnsignedInteger, SecretBoolean
+    from nada_dsl.compiler_frontend import nada_dsl_to_nada_mir
+    LIT = {"int": Integer, "uint": UnsignedInteger, "bool": Boolean}
+    problems, nlits = [], 0
+    for k in range(n_programs):
+        reset_globals()
+        p = Party("p")
+        host = {"Integer": SecretInteger(Input("xi", p)), "UnsignedInteger": SecretUnsignedInteger(Input("xu", p)),
+                "Boolean": SecretBoolean(Input("xb", p))}
+        items = []          # (description, literal wrapper, exact value, class name)
+
+        def build(e, base):
+            if e[0] == "lit":
+                return LIT[base](e[1])
+            return PYOP[e[0]](build(e[1], base), build(e[2], base))
+        fam = FAMILIES[k % len(FAMILIES)]
+        for v in fam:
+            # the value as the *result* of a fold (v = (v - 3) + 3) and as a written literal
+            items.append((f"Integer({v - 3}) + Integer(3)", Integer(v - 3) + Integer(3), v, "Integer"))
+            if v >= 3:
+                items.append((f"UnsignedInteger({v - 3}) + UnsignedInteger(3)", UnsignedInteger(v - 3) + UnsignedInteger(3), v, "UnsignedInteger"))
+        for _ in range(rng.randint(2, 6)):
+            fam_k = rng.random()
+            if fam_k < 0.5:
+                e = nested_expr(rng, rng.choice([1, 2, 3]))
+                base = "int"
+                if eval_exact(e) >= 0 and rng.random() < 0.3 and all_nonneg(e):
+                    base = "uint"
+                items.append((show_expr(e, base), build(e, base), eval_exact(e), {"int": "Integer", "uint": "UnsignedInteger"}[base]))
+            elif fam_k < 0.8:
+                op = rng.choice(["div", "mod", "shl", "shr", "pow"])
+                a = R.big_int(rng)
+                b = rng.choice([1, 2, 3, 7, 64]) if op in ("shl", "shr", "pow") else (R.big_int(rng) or 3)
+                if op == "pow":
+                    a = a % 2**40
+                try:
+                    lit = PYOP[op](Integer(a), UnsignedInteger(b) if op in ("shl", "shr") else Integer(b))
+                except Exception:  # pylint: disable=broad-except
+                    continue
+                items.append((f"Integer({a}) {op} {b}", lit, exact_of(op, a, b), "Integer"))
+            else:
+                op = rng.choice(REL)
+                a, b = R.big_int(rng), R.big_int(rng)
+                items.append((f"Integer({a}) {op} Integer({b})", PYOP[op](Integer(a), Integer(b)), bool(EXACT[op](a, b)), "Boolean"))
+        outs = []
+        for i, (desc, lit, val, cls) in enumerate(items):
+            if type(lit).__name__ != cls:
+                problems.append({"expr": desc, "why": f"folded to a {type(lit).__name__}, expected the literal type {cls}"})
+                continue
+            r = (host[cls] ^ lit) if cls == "Boolean" else (host[cls] + lit)
+            outs.append((i, Output(r, f"o{i}", p)))
+        mir = nada_dsl_to_nada_mir([o for _, o in outs])
+        lits = {}
+        for l in mir["literals"]:
+            lits.setdefault(l["name"], []).append(l)
+        for (i, _), mo in zip(outs, mir["outputs"]):
+            desc, lit, val, cls = items[i]
+            nlits += 1
+            op = mir["operations"][mo["operation_id"]]
+            name, body = next(iter(op.items()))
+            want_op = "BooleanXor" if cls == "Boolean" else "Addition"
+            if name != want_op:
+                problems.append({"expr": desc, "why": f"an operation with a non-literal operand was emitted as {name}, expected {want_op} (never folded)"})
+                continue
+            ref = mir["operations"][body["right"]]
+            rname, rbody = next(iter(ref.items()))
+            if rname != "LiteralReference":
+                problems.append({"expr": desc, "why": f"the literal-only sub-expression was emitted as {rname}, not as one literal"})
+                continue
+            entries = lits.get(rbody["refers_to"], [])
+            if len(entries) != 1:
+                problems.append({"expr": desc, "why": f"literal reference {rbody['refers_to']} resolves to {len(entries)} entries"})
+                continue
+            e = entries[0]
+            if e["value"] != str(val) or e["type"] != cls or rbody["type"] != cls:
+                problems.append({"expr": desc, "family": [str(x) for x in fam],
+                                 "why": f"in the compiled program the folded literal resolves to value {e['value']} of type {e['type']}; "
+                                        f"the exact result is {val} of type {cls}"})
+    reset_globals()
+    return problems, nlits
+
+
+def all_nonneg(e):
+    return e[1] >= 0 if e[0] == "lit" else (e[0] != "sub" and all_nonneg(e[1]) and all_nonneg(e[2]))
+
+
+def show_expr(e, base):
+    c = {"int": "Integer", "uint": "UnsignedInteger"}[base]
+    return f"{c}({e[1]})" if e[0] == "lit" else f"({show_expr(e[1], base)} {e[0]} {show_expr(e[2], base)})"
+
+
 def run(res, tier):
     rng = R.make("C06")
     n = 400 if tier == "quick" else 20000
@@ -171,6 +292,9 @@ def run(res, tier):
             nontrivial.add((op, base, a, b))
     if diffs:
         res.broken.append({"decl": "K4 (Py/Int.lean vs CPython on foldExpr)", "msg": json.dumps(diffs[:3])[:600]})
+    problems, nlits = program_level(R.make("C06-programs"), 24 if tier == "quick" else 600)
+    for pr in problems[:8]:
+        res.violation({"property": "C06", "kind": "fold-in-program", **pr}, f"{pr['expr'][:120]}: {pr['why']}"[:400])
     res.coverage.update({
         "evaluations": len(cases),
         "distinct_nontrivial": len(nontrivial),
@@ -180,6 +304,7 @@ def run(res, tier):
         "operator_distribution": dist,
         "model_gap_skipped": gaps,
         "k4_disagreements": len(diffs),
+        "folded_literals_checked_inside_compiled_programs": nlits,
         "samples": [{"op": c[0], "base": c[1], "a": enc(c[2]), "b": enc(c[3])} for c in cases[16:40:4]],
     })
     res.assumptions += [
@@ -190,6 +315,12 @@ def run(res, tier):
 
 
 def replay(obj):
+    if obj.get("kind") == "fold-in-program":
+        problems, _ = program_level(R.make("C06-programs"), 24)
+        print(json.dumps(problems[:3], default=str)[:1500])
+        if problems:
+            print("VIOLATION property=C06 replay=(replayed)")
+        return 1 if problems else 0
     op, base = obj["op"], obj["base"]
     a = obj["a"] if isinstance(obj["a"], bool) else int(obj["a"])
     b = obj["b"] if isinstance(obj["b"], bool) else int(obj["b"])
